@@ -184,6 +184,9 @@ class Intervals:
             return (0, A_MEM)
         if k == "field" and t[2] in (0, 1) and isinstance(t[1], tuple) and t[1] and t[1][0] == "bin":
             return self.term(t[1])
+        if k == "field" and t[2] == 0 and isinstance(t[1], tuple) and t[1] and t[1][0] == "call" \
+                and t[1][1].split("::")[-1] in ("position", "rposition", "get_index_of", "binary_search") and ("Iterator" in t[1][1] or "slice" in t[1][1] or "IndexMap" in t[1][1]):
+            return (0, A_MEM)          # an index into an in-memory sequence (A-MEM)
         if k == "field" and t[2] == 1 and isinstance(t[1], tuple) and t[1] and t[1][0] == "field" and t[1][2] == 0 \
                 and isinstance(t[1][1], tuple) and t[1][1] and t[1][1][0] == "call":
             callee = self.F.fns.get(t[1][1][1])
